@@ -61,7 +61,7 @@ _add(
          "variance is compared relatively only; (c) ISI of random rasters (time-first and time-last, ragged, empty); (d) Victor-Purpura laws on "
          "triples of spike-time vectors and against an independent dynamic programme. One evaluation = one "
          "(pair, sample time) / (distribution, parameters) / raster / triple; distinct = abstractions of those.",
-    required=["roundtrip_laws", "adjusted_bracket_laws", "linear_bracket_laws", "dist_laws", "isi_trains_checked", "vp_laws", "validity_queries", "narrow_moment_checks", "vp_cases_with_other_spike_time_dtypes", "roundtrips_with_nonfinite_brackets", "decay_roundtrips_with_a_stray_keyword"],
+    required=["roundtrip_laws", "adjusted_bracket_laws", "linear_bracket_laws", "dist_laws", "isi_trains_checked", "vp_laws", "validity_queries", "narrow_moment_checks", "vp_cases_with_other_spike_time_dtypes", "roundtrips_with_nonfinite_brackets", "decay_roundtrips_with_a_stray_keyword", "isi_rasters_in_other_dtypes"],
     floor={"quick": 100, "thorough": 200},
     text="Held on every input explored: algebraic laws that tie the numerical helpers to each other and to their "
          "definitions are evaluated on the real functions over dense grids and random inputs; a law that fails is "
